@@ -450,7 +450,18 @@ def build_problem(sc: dict, trace: Trace, tag, wrappers: list, sign=None):
     box = np.array(sc["box"], dtype=float)
     obj = make_objective(sc, sign)
     rec = Recorder(obj, trace, tag)
-    p = FunctionProblem(rec, bounds=box, maximize=bool(sc["maximize"]))
+    style = sc.get("objective_style", "object")
+    if style == "lambda":
+        fn = lambda x: rec(x)  # noqa: E731
+    elif style == "closure":
+        scale = 1.0
+
+        def fn(x, *a, **k):
+            return scale * rec(x)
+
+    else:
+        fn = rec
+    p = FunctionProblem(fn, bounds=box, maximize=bool(sc["maximize"]))
     layers = []
     for w in wrappers:
         if w == "count":
